@@ -90,6 +90,8 @@ FORMS = {
     'PACK': (I + 'generic.py', 'PackInstruction'),
     # extension 3, phase 1
     'UNPACK': (I + 'generic.py', 'UnpackInstruction'),
+    # phase 3
+    'CHECK_SIGNATURE': (I + 'crypto.py', 'CheckSignatureInstruction'),
 }
 
 # module-level helper functions the instruction classes call: digest key -> (file, function)
@@ -1960,6 +1962,24 @@ def from_value(cls, value):
     assert len(value) == len(value.encode())
     assert all((c == '\\n' or ' ' <= c <= '~' for c in value))
     return cls(value)
+''',
+    # phase 3
+    'CHECK_SIGNATURE': '''
+@classmethod
+def execute(cls, stack, stdout, context):
+    pk, sig, msg = stack.pop3()
+    pk.assert_type_equal(KeyType)
+    sig.assert_type_equal(SignatureType)
+    msg.assert_type_equal(BytesType)
+    key = Key.from_encoded_key(str(pk))
+    try:
+        key.verify(signature=str(sig), message=bytes(msg))
+    except ValueError:
+        res = BoolType(False)
+    else:
+        res = BoolType(True)
+    stack.push(res)
+    return cls(stack_items_added=1)
 ''',
 }
 
